@@ -15,15 +15,16 @@ RULE = ('LISTS: (L1) every labelled list tree over {itemize,enumerate,descriptio
         'text+nested list+text} x optional [term]; (L2) every unlabelled shape of depth <= D with <= m items per list '
         '(<= S items in total), labelled by 3 kind rotations x 6 leaf-content rotations (menu plus quote-holding-a-list) x term pattern. '
         'TABLES: (T1) every preamble of n columns over column types x every subset of the n+1 bar positions x every '
-        'spelling (plain, spaced, @{} at every gap on either side of a bar, every *{k}{unit} folding) x 3 bodies; '
+        'spelling (plain, spaced, @{} at every gap on either side of a bar, every *{k}{unit} folding with 1- and 2-column units) x 3 bodies; '
         '(T2) every span layout of an n x r grid with <= 2 \\multicolumn cells (all spans, all positions, incl. span 1) x '
         'every subset of the r+1 row boundaries carrying \\hline x (no \\cline | one \\cline{i-j}, every boundary, every '
-        'range that is a union of whole cells of both adjacent rows) x preamble/multicolumn-spec pairs; (T2V) every span '
+        'range that is a union of whole cells of both adjacent rows) x preamble/multicolumn-spec pairs; (T2C) the same layouts x '
+        'every boundary x every ordered pair of disjoint aligned \\cline ranges on it x {no, all other} \\hline; (T2V) every span '
         'layout x every bar subset x every choice of {c,|c,c|,|c|} per multicolumn; (T3) every n x r grid of cell contents '
-        'from {word, two words, two paragraphs, empty, unbraced \\bfseries, {\\bf ..}, $..$, \\textbf, nested tabular, itemize, \\def+use, '
+        'from {word, two words, two paragraphs, empty, unbraced \\bfseries, {\\bf ..}, $..$, \\textbf, nested tabular, nested array in $ $, itemize, \\def+use, '
         'use of outer \\def} without all-empty rows, plus multicolumn contents; (T4) row terminator / whitespace / '
         'environment (tabular, tabular[t], tabular*, array in \\[ \\] and $ $) / wrapper (bare, article, list item, center) '
-        'spellings x 9 bodies. Every text leaf is a unique marker word. Non-trivial: >= 2 items / >= 2 cells; distinct = '
+        'spellings x 10 bodies. Every text leaf is a unique marker word. Non-trivial: >= 2 items / >= 2 cells; distinct = '
         'distinct source text; outcomes = distinct observed shapes')
 ASSUMPTIONS = [
     'oracle: fold over the generated AST using the LaTeX rules quoted in vp/refs/c10_shape.py; no TeX binary to cross-check',
@@ -38,13 +39,12 @@ LISTS = ('itemize', 'enumerate', 'description', 'trivlist', 'list')
 TABLES = ('tabular', 'array', 'tabular*', 'tabularx', 'tabulary')
 ENVS = ('quote', 'quotation', 'center', 'verse')
 FMT = ('bfseries', 'bf', 'textbf', 'math', 'displaymath', 'itshape', 'em', 'emph')
-TRANSPARENT_MATH = ('math', 'displaymath')
 
 
 # ---------------------------------------------------------------------------
 # observation
 # ---------------------------------------------------------------------------
-def segments(node, top=False):
+def segments(node):
     """paragraph-transparent, inline-transparent description of the children of `node`"""
     from plasTeX.DOM import Node
     segs = []
@@ -93,20 +93,10 @@ def segments(node, top=False):
                 flush()
                 segs.append(('misplaced', name, segments(c)))
             else:
-                f2 = fmt
-                if name in FMT and not (top and name in TRANSPARENT_MATH and _has_table(c)):
-                    f2 = fmt + (name,)
-                walk(c, f2, depth + 1)
+                walk(c, fmt + (name,) if name in FMT else fmt, depth + 1)
     walk(node, (), 0)
     flush()
     return tuple(segs)
-
-
-def _has_table(n):
-    for c in n.childNodes:
-        if c.nodeType == 1 and (c.nodeName in TABLES or _has_table(c)):
-            return True
-    return False
 
 
 def observe_list(node):
@@ -187,8 +177,7 @@ def observe(src):
             tex.ownerDocument.context.warnOnUnrecognized = False
             tex.input(src)
             doc = tex.parse()
-            obs = segments(doc, top=True)
-            depth = len(doc.context.contexts)
+            obs = segments(doc)
     except core.Timeout:
         return ('timeout',)
     except Exception as e:
@@ -292,6 +281,30 @@ def rule_sets(rows, n, clines=True):
             yield rules
 
 
+def gen_T2C(n, r, maxmc, pair):
+    """two disjoint \\cline on one boundary (the usual way to rule off separate column groups)"""
+    which, mcspec = T2_PAIRS[pair]
+    cols, bars = _pair(n, which)
+    ranges = [(lo, hi) for lo in range(1, n + 1) for hi in range(lo, n + 1)]
+    for lay in layouts(n, r, maxmc):
+        rows = [[[s, mcspec if mc else None, 'M'] for s, mc in sh] for sh in lay]
+        for b in range(r + 1):
+            for a in ranges:
+                for c in ranges:
+                    if c[0] <= a[1]:
+                        continue
+                    if not (R.cline_aligned(rows, b, *a) and R.cline_aligned(rows, b, *c)):
+                        continue
+                    for hall in (0, 1):
+                        rules = [[hall if bb != b else 0] for bb in range(r + 1)]
+                        rules[b] += [list(a), list(c)]
+                        for order in (0, 1):
+                            if order:
+                                rules = [list(x) for x in rules]
+                                rules[b] = [rules[b][0], rules[b][2], rules[b][1]]
+                            yield {'fam': 'table', 'ast': t_ast(cols, bars, rows, rules)}
+
+
 def bars_list(mask, n):
     return [(mask >> k) & 1 for k in range(n + 1)]
 
@@ -363,7 +376,7 @@ def gen_T2V(n, r, maxmc):
                 yield {'fam': 'table', 'ast': t_ast(cols, bars_list(mask, n), rows, rules)}
 
 
-KINDS_FULL = ['M', 'M2', 'P2', 'E', 'BF', 'G', 'MA', 'TB', 'NT', 'LI', 'DF', 'US']
+KINDS_FULL = ['M', 'M2', 'P2', 'E', 'BF', 'G', 'MA', 'TB', 'NT', 'NA', 'LI', 'DF', 'US']
 KINDS_SMALL = ['M', 'E', 'BF', 'NT', 'DF', 'US']
 KINDS_TINY = ['M', 'E', 'BF', 'US']
 
@@ -408,6 +421,8 @@ def t4_bodies():
     out.append(('ll', [0, 0, 0], [[[2, 'c', M]], [[1, None, 'DF'], [1, None, 'US']], [[1, 'r', M], [1, None, 'E']]],
                 [[1, None], [1, None], [0, [1, 2]], [0, None]]))
     out.append(('rl', [1, 0, 1], [[[1, None, 'NT'], [1, None, M]]], [[0, None], [1, None]]))
+    out.append(('pl', [0, 1, 0], [[[1, None, 'LI'], [1, None, M]], [[1, None, 'NA'], [1, None, 'P2']]],
+                [[0, None], [0, [2, 2]], [0, None]]))
     out.append(('lc', [2, 1, 2], plain_rows(2, 2), [[2, None], [0, None], [2, [1, 1]]]))       # || and \\hline\\hline
     return out
 
@@ -536,7 +551,7 @@ def gen_L2(depth, maxitems, total, min_total, min_width=1, min_depth=1, diag=0):
 
 # ---------------------------------------------------------------------------
 FAMILIES = {
-    'T1': gen_T1, 'T2': gen_T2, 'T2V': gen_T2V, 'T3': gen_T3, 'T3mc': gen_T3mc, 'T4': gen_T4,
+    'T1': gen_T1, 'T2': gen_T2, 'T2C': gen_T2C, 'T2V': gen_T2V, 'T3': gen_T3, 'T3mc': gen_T3mc, 'T4': gen_T4,
     'L1': gen_lists, 'L2': gen_L2,
 }
 
@@ -557,6 +572,8 @@ def plan(tier):
                         p.append(('T2', (n, r, 2, pair), 4 if n * r >= 4 else 1, {}))
         for n, r in ((2, 1), (2, 2), (3, 1), (3, 2)):
             p.append(('T2V', (n, r, 2), 8 if n * r >= 6 else 2, {}))
+        for n, r in ((2, 1), (2, 2), (3, 1), (3, 2)):
+            p.append(('T2C', (n, r, 2, 0), 2, {}))
         p.append(('T3', (1, 1, KINDS_FULL), 1, {}))
         p.append(('T3', (2, 1, KINDS_FULL), 1, {}))
         p.append(('T3', (1, 2, KINDS_FULL), 1, {}))
@@ -589,6 +606,9 @@ def plan(tier):
         p.append(('T2', (5, 3, 1, 0), 32, {}))
         for n, r in ((2, 1), (2, 2), (3, 1), (3, 2), (4, 1), (4, 2), (3, 3), (5, 1)):
             p.append(('T2V', (n, r, 2), 32 if n * r >= 6 else 2, {}))
+        for n, r in ((2, 1), (2, 2), (3, 1), (3, 2), (3, 3), (4, 1), (4, 2), (5, 1)):
+            for pair in (0, 1):
+                p.append(('T2C', (n, r, 2, pair), 16 if n * r >= 8 else 2, {}))
         p.append(('T3', (1, 1, KINDS_FULL), 1, {}))
         p.append(('T3', (2, 1, KINDS_FULL), 1, {}))
         p.append(('T3', (1, 2, KINDS_FULL), 1, {}))
@@ -641,9 +661,9 @@ def run_block(block):
             ast = case['ast']
             if any(c[1] is not None for row in ast['rows'] for c in row):
                 rep.count('tables_with_multicolumn')
-            if any(cl for nh, cl in ast['rules']):
+            if any(any(x[1:]) for x in ast['rules']):
                 rep.count('tables_with_cline')
-            if any(nh for nh, cl in ast['rules']):
+            if any(x[0] for x in ast['rules']):
                 rep.count('tables_with_hline')
         if v == 'ok':
             if rep.evaluations % 97 == 5:
